@@ -205,17 +205,10 @@ where
 
         self.clock.register_ts(inner.timestamp.cast()).await;
 
-        // SAFETY:
-        //   Although this may seem very unsafe, we can rely on the parent type (`KeyspaceOrSwotSet`)
-        //   to satisfy our guarantees when performing this operation.
-        //   - Internally datacake-rpc has already validated and checked the checksum of the overall
-        //     payload of the message when it originally deserialized `KeyspaceOrSwotSet` this ensures
-        //     the actual layout and original data is intact.
-        //   - The alignment issues are solved by the the fact the DataView maintains a 16 byte aligned
-        //     buffer which the parent type maintains in its view form.
-        let state = unsafe {
-            rkyv::from_bytes_unchecked(&inner.set).map_err(|_| Status::invalid())?
-        };
+        // The state is validated before being used, a state which cannot be decoded
+        // is reported as an error rather than being trusted.
+        let state =
+            OrSWotSet::from_bytes(&inner.set).map_err(|_| Status::invalid())?;
 
         Ok((inner.last_updated.cast(), state))
     }
